@@ -133,7 +133,7 @@ theorem error_sq_nonneg (n : Nat) (hn : 1 ≤ n) (x : Nat → Nat → Rat) (p : 
 
 /-- glue of `CorrFunc.sample` / `to_dict` that the hand model mirrors is unchanged -/
 theorem glue_pinned :
-    Gen.pinCorrFuncSampleGlue = "c5578a44993de44d" ∧ Gen.pinCorrFuncToDict = "15752d580acfc172" := by
+    Gen.pinCorrFuncSampleGlue = "643d7c1acd96a2f7" ∧ Gen.pinCorrFuncToDict = "29278bba8909b4c8" := by
   decide
 
 /-- row k of the histogram jackknife index matrix = all patches except k, in patch-index order
